@@ -212,6 +212,21 @@ fn near_valid(rng: &mut Rng) -> (String, Option<&'static str>) {
         let c = cyclic[rng.below(cyclic.len())];
         return (format!("{}start :: fn do\nend\n", c), Some("cyclic_type_through_assignment"));
     }
+    // a cyclic structural type that only has to be PRINTED in a diagnostic (no operator rule recurses
+    // into it): must give a rendered error, not an abort - not a hazard case
+    let cyclic_printed: &[&str] = &[
+        "zcyc :: fn do\n    l := []\n    l = [l]\n    x : int = l\nend\n",
+        "zcyc :: fn do\n    t := (1, [])\n    t = (2, [t])\n    t + \"a\"\nend\n",
+        "zcyc :: fn do\n    l := []\n    l = [l]\n    l.nofield\nend\n",
+        "zcyc :: fn do\n    l := []\n    l = [l]\n    l()\nend\n",
+        "zcyc :: fn x do\n    y := x\n    y = (y,)\n    z : str = y\nend\n",
+        "zcyc :: fn do\n    l := []\n    l = [(1, l)]\n    not l\nend\n",
+        "zcyc :: fn do\n    l := []\n    l = [l]\n    if l do\n    end\nend\n",
+    ];
+    if rng.chance(1, 8) {
+        let c = cyclic_printed[rng.below(cyclic_printed.len())];
+        return (format!("{}start :: fn do\nend\n", c), None);
+    }
     // entry-point oddities: no `start` definition of its own, but the name is introduced otherwise
     let entry: &[&str] = &[
         "use list as start\n",
